@@ -29,6 +29,10 @@ pub struct ArchiveSpec {
     pub layout_seed: u64,
     /// Probability (n/8) that a compressible chunk is nevertheless stored raw.
     pub raw_share: u64,
+    /// Probability (n/8) that a chunk whose compressed form is LARGER than the chunk is
+    /// nevertheless stored compressed (the format only says: stored size == source size
+    /// means raw; bita's own writer never does this, another tool may).
+    pub keep_bigger_share: u64,
     pub metadata: Vec<(String, Vec<u8>)>,
     pub app_version: String,
 }
@@ -46,6 +50,7 @@ impl ArchiveSpec {
             trailing: 0,
             layout_seed: 1,
             raw_share: 0,
+            keep_bigger_share: 0,
             metadata: vec![],
             app_version: "r2-encoder".into(),
         }
@@ -56,7 +61,7 @@ impl ArchiveSpec {
             self.cfg.describe(), self.hash_len, self.comp, self.style.legacy_magic, self.style.unpacked_order,
             self.style.unknown_fields, self.style.explicit_defaults, self.style.reverse_fields, self.slack,
             self.order, self.max_pad, self.trailing, self.raw_share, self.metadata.len()
-        )
+        ) + &format!(" keep_bigger={}/8", self.keep_bigger_share)
     }
 }
 
@@ -105,8 +110,8 @@ pub fn encode_archive(source: &[u8], spec: &ArchiveSpec) -> Result<Encoded, Stri
         if !use_raw {
             let c = codec::compress(spec.comp.0, spec.comp.1, raw)?;
             // Never compressed with stored size equal to source size (the reader must
-            // treat equal sizes as raw), and a conforming writer never stores more.
-            if c.len() >= raw.len() {
+            // treat equal sizes as raw). Larger than the source is allowed by the format.
+            if c.len() == raw.len() || (c.len() > raw.len() && rng.below(8) >= spec.keep_bigger_share) {
                 use_raw = true;
             } else {
                 data = c;
